@@ -51,7 +51,8 @@ def main():
     s = open(p).read()
     fx, kn = findings_tables()
     for name, txt in (("seeds", seeds_table()), ("benign", benign_table()), ("fixed", fx), ("known", kn)):
-        s = re.sub(r"<!-- BEGIN:%s -->.*?<!-- END:%s -->" % (name, name), "<!-- BEGIN:%s -->\n%s\n<!-- END:%s -->" % (name, txt, name), s, flags=re.S)
+        rep = "<!-- BEGIN:%s -->\n%s\n<!-- END:%s -->" % (name, txt, name)
+        s = re.sub(r"<!-- BEGIN:%s -->.*?<!-- END:%s -->" % (name, name), lambda m, rep=rep: rep, s, flags=re.S)
     open(p, "w").write(s)
 
 
